@@ -279,7 +279,16 @@ class Planner:
                     st.append(self.s_insert(a, v, m))
                     ids.append(self.cid(a))
                     aids.append(a)
-            ids += [FILLER0 + i for i in range(n - len(ids))]
+            # how an over-long list is padded: distinct absent ids, one listed id repeated, or the listed ids in turn
+            # (the size limit is about the number of entries, not of distinct ids)
+            fill = r.choice(["distinct", "repeat", "cycle"]) if ids and n > len(ids) else "distinct"
+            if fill == "distinct":
+                ids += [FILLER0 + i for i in range(n - len(ids))]
+            elif fill == "repeat":
+                ids += [ids[r.randrange(len(ids))]] * (n - len(ids))
+            else:
+                base = list(ids)
+                ids += [base[i % len(base)] for i in range(n - len(ids))]
             touch = [a for a in aids if a]
             if rpc == "BulkQuery":
                 texp, payload = exp, "total_found"
